@@ -21,7 +21,7 @@ CRATES = [
     "grin", "grin_api", "grin_chain", "grin_config", "grin_core", "grin_keychain",
     "grin_p2p", "grin_pool", "grin_servers", "grin_store", "grin_util",
 ]
-KEEP = 24  # fact sets kept in the cache
+KEEP = int(os.environ.get("VERIF_FACTS_KEEP", "24"))  # fact sets kept in the cache
 
 
 def tree_hash(repo=REPO):
@@ -120,7 +120,13 @@ def extract(flavour="debug", repo=REPO, verbose=True):
         os.rename(tmp, out)
         # prune old fact sets
         fdir = os.path.join(CACHE, "facts")
-        sets = sorted((os.path.getmtime(os.path.join(fdir, n)), n) for n in os.listdir(fdir) if not n.endswith(".tmp"))
+        pinned = set()
+        try:
+            import json
+            pinned = {os.path.basename(v) for v in json.load(open(os.path.join(CACHE, "evalmap.json"))).values()}  # calibration sets (tools/evalset.py)
+        except (OSError, ValueError):
+            pass
+        sets = sorted((os.path.getmtime(os.path.join(fdir, n)), n) for n in os.listdir(fdir) if not n.endswith(".tmp") and n not in pinned)
         for _, n in sets[:-KEEP]:
             shutil.rmtree(os.path.join(fdir, n), ignore_errors=True)
         if verbose:
